@@ -688,6 +688,14 @@ func ruleR3_6(w *World, r *Report) {
 			}
 			lo, ok1 := lenOrigin(fn, lv, at)
 			wo, ok2 := lenOrigin(fn, wv, at)
+			if ok1 && !ok2 {
+				// the literal slice is made here but the weight slice is not: it is storage that lives elsewhere
+				if o, f, _, okF := loadedFieldOf(wv); okF {
+					n++
+					r.Bad("R3.6", fmt.Sprintf("%s parallel sorter #%d", w.FuncName(fn), n), w.InstrPos(at), fmt.Sprintf("the sorter is given %s.%s itself, not a copy made here: sorting permutes the stored weights, which stay paired by position with the unsorted cost literals", o, f))
+				}
+				return
+			}
 			if !ok1 || !ok2 {
 				return // lengths come from the caller: the constructor's own contract (R2.1)
 			}
@@ -1972,5 +1980,101 @@ func ruleR5_8(w *World, r *Report) {
 	}
 	if n == 0 {
 		r.Unk("R5.8", "discarded statuses", "-", "no call with a discarded solver.Status result")
+	}
+}
+
+
+// ---------- R3.7: the decision heap is rebuilt between adding a constraint and searching again ----------
+
+func ruleR3_7(w *World, r *Report) {
+	r.Rule("R3.7", "in every loop of package solver that adds a constraint with AppendClause and then solves again, the decision heap is rebuilt in between (AppendClause retracts bindings; the variables it unbinds must be decidable again)", 1)
+	app := w.Func("solver", "Solver.AppendClause")
+	solve := w.Func("solver", "Solver.Solve")
+	if app == nil || solve == nil {
+		r.Unk("R3.7", "anchors", "-", "Solver.AppendClause or Solver.Solve not found")
+		return
+	}
+	rebuild := map[*ssa.Function]bool{}
+	for _, fn := range w.Fns {
+		if w.PkgName(fn) != "solver" || fn.Signature.Recv() == nil || fn.Signature.Params().Len() != 0 {
+			continue
+		}
+		for _, ci := range callsIn(fn) {
+			for _, c := range w.Callees[ci] {
+				if strings.HasSuffix(w.FuncName(c), "(*solver.queue).build") {
+					rebuild[fn] = true
+				}
+			}
+		}
+	}
+	n := 0
+	isRebuild := func(ck ssa.CallInstruction) bool {
+		for _, c := range w.Callees[ck] {
+			if rebuild[c] {
+				return true
+			}
+		}
+		return false
+	}
+	// events: an AppendClause call inside a loop, or a call (inside a loop) of a helper that makes one
+	type event struct {
+		fn          *ssa.Function
+		at          ssa.CallInstruction
+		rebuiltIn   bool // the helper rebuilds the heap itself after adding the constraint
+		description string
+	}
+	var events []event
+	for _, fn := range w.Fns {
+		if w.PkgName(fn) != "solver" {
+			continue
+		}
+		for _, ci := range callsIn(fn) {
+			if !w.staticCalleeIs(ci, app) {
+				continue
+			}
+			solvesAfter := false
+			for _, cj := range callsIn(fn) {
+				if w.staticCalleeIs(cj, solve) && instrDominates(ci, cj) {
+					solvesAfter = true
+				}
+			}
+			if inLoop(fn, ci.Block()) || solvesAfter {
+				events = append(events, event{fn, ci, false, "AppendClause"})
+				continue
+			}
+			inHelper := false
+			for _, ck := range callsIn(fn) {
+				if isRebuild(ck) && instrDominates(ci, ck) {
+					inHelper = true
+				}
+			}
+			for _, site := range w.Callers[fn] {
+				g := site.Parent()
+				if w.PkgName(g) == "solver" && inLoop(g, site.Block()) {
+					events = append(events, event{g, site, inHelper, w.FuncName(fn)})
+				}
+			}
+		}
+	}
+	for _, ev := range events {
+		fn, ci := ev.fn, ev.at
+		for _, cj := range callsIn(fn) {
+			if !w.staticCalleeIs(cj, solve) || !instrDominates(ci, cj) {
+				continue
+			}
+			n++
+			key := fmt.Sprintf("%s rebuilds the heap between %s and Solve #%d", w.FuncName(fn), ev.description, n)
+			ok := ev.rebuiltIn
+			for _, ck := range callsIn(fn) {
+				if isRebuild(ck) && instrDominates(ci, ck) && instrDominates(ck, cj) {
+					ok = true
+				}
+			}
+			r.Check(ok, "R3.7", key, w.InstrPos(cj), "heap rebuilt in between",
+				"the search is resumed after AppendClause without the decision heap having been rebuilt: variables unbound by the retraction inside AppendClause are missing from the heap, so the search can stop with `no variable left` while some are unbound")
+		}
+	}
+	if n == 0 {
+		r.Unk("R3.7", "optimisation loops", "-", "no loop adds a constraint with AppendClause and solves again")
 	}
 }
